@@ -21,6 +21,7 @@ TEMPLATES = [
     ('exprnone',  ['T({k})']),
     ('value',     ['V({k})']),
     ('print',     ['P({k})']),
+    ('printind',  ['PI({k})']),                  # output whose every line starts with blanks
     ('aug',       ['w = 0', 'w += T({k}, 1)']),
     ('import',    ['import os as o{k}; T({k})']),
     ('tcomment',  ['T({k})  # trailing comment']),
